@@ -171,7 +171,7 @@ Definition has_mime (f : pfile) : bool := negb (is_nil (f_mime f)).
 (* tail recursive (files of 256 KiB in the extracted model) *)
 Definition len_N (l : list N) : N := fold_left (fun a _ => N.succ a) l 0.
 Definition f_size (f : pfile) : N := len_N (f_rdata f).
-Definition f_data (f : pfile) : list N := rev (f_rdata f).
+Definition f_data (f : pfile) : list N := rev_append (f_rdata f) [].   (* = rev, linear time *)
 Definition set_name f v := mkfile v (f_filename f) (f_mime f) (f_rdata f).
 Definition set_filename f v := mkfile (f_name f) v (f_mime f) (f_rdata f).
 Definition set_mime f v := mkfile (f_name f) (f_filename f) v (f_rdata f).
@@ -545,3 +545,62 @@ Fixpoint parse_items (items : list (list N)) : list (list N * list N) * bool :=
   end.
 Definition parse_urlencoded (s : list N) : list (list N * list N) * bool :=
   parse_items (drop_last_empty (split_all 38 s)).
+
+(* ------------------------------------------------------------------------------------------ *)
+(* the request as the whole service sees it (harness/C12_service.cpp): what the filters are told  *)
+(* ------------------------------------------------------------------------------------------ *)
+(* multipart_filter callbacks that do not depend on the chunking: number of on_new_file calls and the
+   entries handed to on_data_ready (most recent first).  size_ok is tested BEFORE the callback. *)
+Record fev := mkfev { n_new : N; rreadyd : list pfile }.
+Definition fev0 : fev := mkfev 0 [].
+Definition fev_upd (a : fev) (s : pstate) (e : option ev) : fev :=
+  match e with
+  | Some EvMeta => mkfev (N.succ (n_new a)) (rreadyd a)
+  | Some EvReady => mkfev (n_new a) (last_file s :: rreadyd a)
+  | _ => a
+  end.
+Fixpoint feed_f (bnd : list N) (lim : option N) (s : pstate) (chunk : list N) (a : fev) : outcome * fev :=
+  match chunk with
+  | [] => (OGo s, a)
+  | c :: rest =>
+      match step bnd s c (is_nil rest) with
+      | SErr => (OStop 400, a)
+      | SFuel => (OStop 599, a)
+      | SEof s' => (OEof s', a)
+      | SGo s' e => if ev_ok lim s' e then feed_f bnd lim s' rest (fev_upd a s' e) else (OStop 413, a)
+      end
+  end.
+
+Definition s_mp_media : list N :=      (* multipart/form-data *)
+  [109;117;108;116;105;112;97;114;116;47;102;111;114;109;45;100;97;116;97].
+Definition s_ue_media : list N :=      (* application/x-www-form-urlencoded *)
+  [97;112;112;108;105;99;97;116;105;111;110;47;120;45;119;119;119;45;102;111;114;109;45;117;114;108;101;110;99;111;100;101;100].
+Definition is_mp (ct : list N) : bool := leqb (media_type ct) s_mp_media.
+Definition is_ue (ct : list N) : bool := leqb (media_type ct) s_ue_media.
+
+(* sv_status: 200 = the application ran with the content; 0 = still waiting when the input ended (the
+   connection is dropped without an answer); otherwise the HTTP status of the refusal *)
+Record svc := mksvc { sv_status : N; sv_entries : list pfile; sv_pairs : list (list N * list N);
+                      sv_fev : fev; sv_raw : list N }.
+Definition request_service (L : limits) (raw_filter : bool) (ct : list N) (declared : nat) (body : list N) : svc :=
+  let b := firstn declared body in
+  let complete := Nat.eqb (length b) declared in
+  if Nat.eqb declared 0 then mksvc 200 [] [] fev0 []
+  else if is_mp ct then
+    if multipart_limit L <? N.of_nat declared then mksvc 413 [] [] fev0 []
+    else if raw_filter then mksvc (if complete then 200 else 0) [] [] fev0 b
+    else match ct_boundary ct with
+         | FOk [] => mksvc 400 [] [] fev0 []
+         | FOk key =>
+             match feed_f (make_boundary key) (Some (content_length_limit L)) init_state b fev0 with
+             | (OStop c, a) => mksvc c [] [] a []
+             | (OEof s', a) => if complete then mksvc 200 (rev (rfiles s')) [] a [] else mksvc 400 [] [] a []
+             | (OGo s', a) => if complete then mksvc 400 [] [] a [] else mksvc 0 [] [] a []
+             end
+         | _ => mksvc 599 [] [] fev0 []
+         end
+  else
+    if content_length_limit L <? N.of_nat declared then mksvc 413 [] [] fev0 []
+    else if raw_filter then mksvc (if complete then 200 else 0) [] [] fev0 b
+    else if complete then mksvc 200 [] (if is_ue ct then fst (parse_urlencoded b) else []) fev0 []
+    else mksvc 0 [] [] fev0 [].
